@@ -548,6 +548,12 @@ fn b_alphabet() -> Vec<(String, Vec<u8>)> {
     v.push(("end-X-id0-crc-with-label".to_string(), Desc::end(0, &x[2..], crc_ref(tot(L3A), 0x0800, &L3A.bytes(), &x)).print()));
     v.push(("first-X-id0-3A-total-without-label".to_string(), Desc::first(L3A, 0x0800, 0, tot(Lbl::Bcast), &x[..2]).print()));
     v.push(("end-X-id0-crc-without-label".to_string(), Desc::end(0, &x[2..], crc_ref(tot(Lbl::Bcast), 0x0800, &[], &x)).print()));
+    // an empty PDU sent as a train: first fragment without payload announcing total length = protocol type + label,
+    // CRC-only end fragments with the right trailer, a wrong one, and the trailer of the same train under another label
+    v.push(("first-EMPTY-id0".to_string(), Desc::first(L3A, 0x0800, 0, 5, &[]).print()));
+    v.push(("end-id0-crc-only-of-EMPTY".to_string(), Desc::end(0, &[], crc_ref(5, 0x0800, &L3A.bytes(), &[])).print()));
+    v.push(("end-id0-crc-only-garbage".to_string(), Desc::end(0, &[], 0xDEAD_BEEF).print()));
+    v.push(("end-id0-crc-only-of-EMPTY-other-label".to_string(), Desc::end(0, &[], crc_ref(5, 0x0800, &L3B.bytes(), &[])).print()));
     // a valid first fragment without any payload byte: it restarts its fragment id like any other
     v.push(("first-X-id0-no-payload".to_string(), Desc::first(L3A, 0x0800, 0, tot(L3A), &[]).print()));
     // a first fragment carrying an optional extension
@@ -602,7 +608,7 @@ pub fn b_sys() -> BSys {
 
 pub fn run(tier: Tier) -> i32 {
     let rep = Report::new("C03", tier);
-    rep.set_rule("A: fragment trains from the real encapsulator (PDUs of 5/12/40 bytes x labels 6B/3B/broadcast/re-use x 2..5 fragments) with EVERY single fault of the menu (drop, duplicate, swap, every single-bit flip incl. header bits, every burst pattern up to 10 (thorough 14) bits at every bit offset, truncation at every byte, every fragment id value, listed total-length and CRC replacements) and all ordered pairs of drop/dup/swap/bit-flip faults (quick: first four trains), plus every structural/length/frag-id fault (once and twice) followed by a recomputation of the CRC trailer over what is actually received; trains include ones whose end fragment carries the CRC alone; B: breadth-first search over all sequences of 28 hand-built, syntactically valid fragments (incl. CRC-only end fragments whose trailer matches a concatenation of the wrong length) (trains of two different PDUs spliced on one fragment id, another id, an aliasing id, right/wrong CRC and lengths) to closure with state merging on (receiver snapshot, reference state). Oracle in both: exact 'delivered only if' evaluated on the received bytes by a reference receiver + reference CRC. distinct = fault class x deliveries / packet x outcome");
+    rep.set_rule("A: fragment trains from the real encapsulator (PDUs of 5/12/40 bytes x labels 6B/3B/broadcast/re-use x 2..5 fragments) with EVERY single fault of the menu (drop, duplicate, swap, every single-bit flip incl. header bits, every burst pattern up to 10 (thorough 14) bits at every bit offset, truncation at every byte, every fragment id value, listed total-length and CRC replacements) and all ordered pairs of drop/dup/swap/bit-flip faults (quick: first four trains), plus every structural/length/frag-id fault (once and twice) followed by a recomputation of the CRC trailer over what is actually received; trains include ones whose end fragment carries the CRC alone; B: breadth-first search over all sequences of 32 hand-built, syntactically valid fragments (incl. CRC-only end fragments whose trailer matches a concatenation of the wrong length) (trains of two different PDUs spliced on one fragment id, another id, an aliasing id, right/wrong CRC and lengths) to closure with state merging on (receiver snapshot, reference state). Oracle in both: exact 'delivered only if' evaluated on the received bytes by a reference receiver + reference CRC. distinct = fault class x deliveries / packet x outcome");
     part_a(&rep, tier);
     directed_long(&rep);
     let sys = b_sys();
